@@ -1,6 +1,9 @@
 use crate::config::WindowType;
 use std::collections::VecDeque;
+#[cfg(not(feature = "verif-hooks"))]
 use std::sync::{Arc, Mutex};
+#[cfg(feature = "verif-hooks")]
+use {std::sync::Arc, tower_resilience_core::verif::sync::Mutex};
 #[cfg(not(feature = "verif-hooks"))]
 use std::time::{Duration, Instant};
 #[cfg(feature = "verif-hooks")]
